@@ -33,6 +33,13 @@ def write_xlsx(wb, path, as_int=False, with_topology=True):
     import openpyxl
     book = openpyxl.Workbook()
     book.remove(book.active)
+    blanks = wb.get('blanks', {})
+
+    def gap(ws, sheet, i, ncols):
+        """the empty spreadsheet lines in front of row i of this sheet (cells present but empty)"""
+        b = blanks.get(sheet, [])
+        for _ in range(b[i] if i < len(b) else 0):
+            ws.append([None] * ncols)
     if with_topology:
         ws = book.create_sheet('Nodes')
         for _ in range(4):
@@ -40,13 +47,15 @@ def write_xlsx(wb, path, as_int=False, with_topology=True):
         ws.append(['City', 'State', 'Country', 'Region', 'Latitude', 'Longitude', 'Type', 'Booster_restriction',
                    'Preamp_restriction'])
         for i, n in enumerate(wb['nodes']):
+            gap(ws, 'nodes', i, 9)
             ws.append([n['city'], None, None, 'R', i, 2 * i, n['type'] if n['type'] != 'other' else 'whatever', None, None])
         ws = book.create_sheet('Links')
         for _ in range(3):
             ws.append([None])
         ws.append([None, None, 'east cable (from a to z)'] + [None] * 6 + ['west (from z to a'])
         ws.append(['Node A', 'Node Z'] + [h for _, h in LINK_FIELDS] * 2)
-        for ln in wb['links']:
+        for i, ln in enumerate(wb['links']):
+            gap(ws, 'links', i, 16)
             row = [ln['a'], ln['z']]
             for side in ('east', 'west'):
                 for f, _ in LINK_FIELDS:
@@ -57,7 +66,8 @@ def write_xlsx(wb, path, as_int=False, with_topology=True):
             ws.append([None])
         ws.append([None, None, 'Node a egress/east amp (from a to z)'] + [None] * 5 + ['Node a ingress/west amp (from z to a)'])
         ws.append(['Node A', 'Node Z'] + [h for _, h in AMP_FIELDS] * 2)
-        for e in wb['eqpt']:
+        for i, e in enumerate(wb['eqpt']):
+            gap(ws, 'eqpt', i, 14)
             row = [e['a'], e['z']]
             for side in ('east', 'west'):
                 for f, _ in AMP_FIELDS:
@@ -69,14 +79,16 @@ def write_xlsx(wb, path, as_int=False, with_topology=True):
                 ws.append([None])
             ws.append(['Node A', 'Node Z', 'per degree target power (dBm)', 'type_variety', 'from degrees',
                        'from degree to degree impairment id'])
-            for r in wb['roadms']:
+            for i, r in enumerate(wb['roadms']):
+                gap(ws, 'roadms', i, 6)
                 ws.append([r['a'], r['z'], cell(r['target'], as_int), None, None, None])
     if wb['services']:
         ws = book.create_sheet('Service')
         for _ in range(4):
             ws.append([None])
         ws.append(list(SVC_HEADERS))
-        for s in wb['services']:
+        for i, s in enumerate(wb['services']):
+            gap(ws, 'services', i, 12)
             rid = int(s['id']) if s['id'].isdigit() else s['id']
             ws.append([rid, s['src'], s['dst'], s['trx'], s['mode'] or None, cell(s['spacing'], as_int),
                        cell(s['power'], as_int), cell(s['nch'], True), ' | '.join(s['disjoint']) or None,
